@@ -129,6 +129,19 @@ TARGETS += [
     Target('own_view', HDR, r'iovector_view view\(\) const\s*(?=\{\s*return iovector_view\(\(struct iovec\*\)iovec\(\), iovcnt\(\)\);)', rules=[
         (r'return iovector_view\(\(struct iovec\*\)iovec\(\), iovcnt\(\)\);', 'return (struct iovector_view){ (struct iovec*)OWN_iovec(this), OWN_iovcnt(this) };', 1)]),
 ] + [Target('w_' + n, HDR, loc, rules=WRULES) for (n, loc, a, k) in WRAPPERS]
+WCRULES = [(r'(?:auto|__auto_type) va = view\(\);', 'struct iovector_view va = OWN_view(this);', 1),
+           (r'\bva\.(extract_front_continuous|extract_back_continuous|sum)\(', r'VOP_\1(&va, ', 2), (r'VOP_sum\(&va, \)', 'VOP_sum(&va)', 1),
+           (r'(?<![\w>.])update\(va\)', 'OWN_update(this, va)', 1), (r'(?<![\w>.])do_malloc\(', 'OWN_do_malloc(this, ', 1),
+           (r'(?<![\w>.])extract_(front|back)\(bytes, buf\)', r'OWN_extract_\1(this, bytes, buf)', 1)]
+WRAPC = [('front_continuous', r'void\* extract_front_continuous\(size_t bytes\)\s*(?=\{\s*auto va = view\(\);)', 'true'),
+         ('back_continuous', r'void\* extract_back_continuous\(size_t bytes\)\s*(?=\{\s*auto va = view\(\);)', 'false')]
+TARGETS += [Target('own_update', HDR, r'void update\(iovector_view va\)\s*(?=\{)', rules=[WF])] + [Target('wc_' + n, HDR, loc, rules=WCRULES, common=True) for (n, loc, f) in WRAPC]
+def _mk_wrapc(n, f):
+    def gen(lowered):
+        t = open(__file__.rsplit('/', 1)[0] + '/wrapc.c.in').read()
+        return t.replace('/*@BODY WRAPPER@*/', '/*@BODY wc_%s@*/' % n).replace('WANT_FRONT', f)
+    gen.__name__ = 'wrapc_' + n
+    return gen
 def _mk_wrap(n, a, k):
     def gen(lowered):
         t = open(__file__.rsplit('/', 1)[0] + '/wrap.c.in').read()
@@ -138,6 +151,8 @@ def _mk_wrap(n, a, k):
 UNITS = {'iov.c': 'iov.c.in'}
 for (_n, _loc, _a, _k) in WRAPPERS:
     UNITS['wrap_%s.c' % _n] = _mk_wrap(_n, _a, _k)
+for (_n, _loc, _f) in WRAPC:
+    UNITS['wrapc_%s.c' % _n] = _mk_wrapc(_n, _f)
 # element bases are abstract addresses (the buffers they describe are not modelled as objects), so pointer-overflow
 # checks on address arithmetic over them are off; array bounds / dereference / integer checks stay on
 CHECKS = ['--no-standard-checks', '--bounds-check', '--pointer-check', '--div-by-zero-check', '--signed-overflow-check',
@@ -172,6 +187,7 @@ PROOFS = [
     Proof('pipe_iov', 'iov.c', 'h_pipe_iov', kind='L', min_obligations=10, backend='cadical', defines=['NMAX=16'], timeout=2400, checks=CHECKS,
           bound='at most 16 destination and 16 source elements (input-size bound), any lengths, 0-element destination views included'),
 ] + [Proof('wrapper/%s' % _n, 'wrap_%s.c' % _n, 'h_wrapper', kind='L', min_obligations=4, checks=CHECKS) for (_n, _loc, _a, _k) in WRAPPERS] + [
+    Proof('wrapper/%s' % _n, 'wrapc_%s.c' % _n, 'h_wrapper', kind='L', min_obligations=4, checks=CHECKS) for (_n, _loc, _f) in WRAPC] + [
     Proof('iov_iterator/ctor', 'iov.c', 'h_it_ctor', kind='L', min_obligations=4, **CV),
     Proof('lemma/pre_mono', 'iov.c', 'lemma_pre_mono', kind='L', min_obligations=3, **CV),
 ]
